@@ -8,7 +8,7 @@ use crate::rmatch::*;
 use serde::{Deserialize, Serialize};
 use serde_json::{Value, json};
 
-const RULE: &str = "every document over a 9-event alphabet (nested matched elements, unclosed, mis-nested, void, comments, text; also wrapped in <svg> for foreign self-closing) of length<=n x every op script of <=2 calls from the element menu (before/after/prepend/append/replace/set_inner_content x {Html,Text} x payloads, remove, remove_and_keep_content, set_attribute, remove_attribute, set_tag_name, start-tag before/after/replace/remove, end-tag before/after/replace/remove/set_name via on_end_tag) on selector `a`, alone and together with a second handler on `*` (two handlers on one token, nested matched elements), plus comment / text-chunk / doctype / document-end menus x encodings {UTF-8, windows-1252} x {single write, a cut inside every tag}; oracle: sink bytes == R-edit(document, scripts) (exact bytes; a modified start tag is compared as name + attribute list with untouched attributes byte-identical); non-trivial = distinct (document, script) where at least one handler ran";
+const RULE: &str = "every document over a 9-event alphabet (nested matched elements, unclosed, mis-nested, void, comments, text; also wrapped in <svg> for foreign self-closing) of length<=n x every op script of <=2 calls from the element menu (before/after/prepend/append/replace/set_inner_content x {Html,Text} x payloads, remove, remove_and_keep_content, set_attribute, remove_attribute, set_tag_name, start-tag before/after/replace/remove, the streaming_* variant of every content-inserting call (content written to the streaming sink in pieces, one split inside a character), end-tag before/after/replace/remove/set_name via on_end_tag) on selector `a`, alone and together with a second handler on `*` (two handlers on one token, nested matched elements), plus comment / text-chunk / doctype / document-end menus x encodings {UTF-8, windows-1252} x {single write, a cut inside every tag}; oracle: sink bytes == R-edit(document, scripts) (exact bytes; a modified start tag is compared as name + attribute list with untouched attributes byte-identical); non-trivial = distinct (document, script) where at least one handler ran";
 
 // ---------------------------------------------------------------------------------------------
 // scripts
@@ -256,7 +256,13 @@ impl Plan {
     }
 }
 
+/// `enc` may carry the suffix "+streaming": every content-inserting call then goes through its
+/// `streaming_*` variant (same documented semantics).
 fn plan_cfg(plan: &Plan, enc: &str) -> Cfg {
+    let (enc, streaming) = match enc.strip_suffix("+streaming") {
+        Some(e) => (e, true),
+        None => (enc, false),
+    };
     let mut hs = vec![];
     let split_items = |items: &[Item]| -> (Vec<Op>, Option<Vec<Op>>) {
         let el: Vec<Op> = items.iter().filter_map(|i| if let Item::El(o) = i { Some(o.clone()) } else { None }).collect();
@@ -283,7 +289,7 @@ fn plan_cfg(plan: &Plan, enc: &str) -> Cfg {
     if !plan.end_append.is_empty() {
         hs.push(HSpec::with_ops(HKind::DocEnd, "", plan.end_append.iter().map(|(s, h)| Op::Append(s.clone(), *h)).collect()));
     }
-    Cfg::with(hs).strict(false).enc(enc)
+    Cfg::with(hs).strict(false).enc(enc).streaming(streaming)
 }
 
 #[derive(Clone, Copy, PartialEq, Debug)]
@@ -780,7 +786,7 @@ pub fn run_check(ctx: &Ctx) -> i32 {
     ctx.set_extra("element_scripts", json!(plans1.len()));
     let d3 = docs(3, true);
     let d4 = docs(4, true);
-    run_plans(ctx, &format!("(1) {} scripts of <=2 calls on `a` x D<=3 (+svg-wrapped) x UTF-8 x L0 + cut in every tag", plans1.len()), &d3, &plans1, &["UTF-8"], true);
+    run_plans(ctx, &format!("(1) {} scripts of <=2 calls on `a` x D<=3 (+svg-wrapped) x UTF-8 x {{plain, streaming_* variants}} x L0 + cut in every tag", plans1.len()), &d3, &plans1, &["UTF-8", "UTF-8+streaming"], true);
     // (2) two handlers on the same token / nested matched elements: `a` script x `*` script
     let star_scripts: Vec<Vec<Item>> = vec![
         vec![Item::El(Op::Before("\x01".into(), true)), Item::El(Op::Append("\x02".into(), true))],
@@ -796,7 +802,7 @@ pub fn run_check(ctx: &Ctx) -> i32 {
             }
         }
     }
-    run_plans(ctx, &format!("(2) {} (a-script, *-script) combinations x D<={} x {{UTF-8, windows-1252}}", plans2.len(), 4), &d4, &plans2, &["UTF-8", "windows-1252"], false);
+    run_plans(ctx, &format!("(2) {} (a-script, *-script) combinations x D<={} x {{UTF-8, windows-1252}}", plans2.len(), 4), &d4, &plans2, &["UTF-8", "windows-1252", "windows-1252+streaming"], false);
     // (3) comment / text / doctype / document-end menus, also inside removed content
     let mut plans3 = vec![];
     let tok_ops: Vec<Vec<Op>> = vec![
@@ -817,7 +823,7 @@ pub fn run_check(ctx: &Ctx) -> i32 {
     plans3.push(Plan { text_ops: vec![Op::Remove], text_last_only: false, ..Plan::only_a(vec![]) });
     plans3.push(Plan { text_ops: vec![Op::SetText("s<".into())], text_last_only: true, ..Plan::only_a(vec![]) });
     plans3.push(Plan { end_append: vec![("Z".into(), true), ("<z>".into(), false)], ..Plan::only_a(vec![Item::El(Op::After("q".into(), true))]) });
-    run_plans(ctx, &format!("(3) {} comment/text/document-end plans x D<={} x {{UTF-8, windows-1252}} x L0 + cuts", plans3.len(), if quick { 3 } else { 4 }), if quick { &d3 } else { &d4 }, &plans3, &["UTF-8", "windows-1252"], true);
+    run_plans(ctx, &format!("(3) {} comment/text/document-end plans x D<={} x {{UTF-8, windows-1252}} x L0 + cuts", plans3.len(), if quick { 3 } else { 4 }), if quick { &d3 } else { &d4 }, &plans3, &["UTF-8", "windows-1252", "UTF-8+streaming"], true);
     // (4) deeper documents with single ops
     let plans4: Vec<Plan> = small_menu.iter().map(|i| Plan::only_a(vec![i.clone()])).collect();
     run_plans(ctx, &format!("(4) {} single-call scripts x D<=4 x UTF-8 x L0 + cuts", plans4.len()), &d4, &plans4, &["UTF-8"], true);
